@@ -477,7 +477,7 @@ class Plan:
     """Decides per emitted PDU (global emission index over both directions) what the link does.
 
     ``on_emit`` returns a list of (disposition, raw) with disposition one of
-    'now' | ('delay', n) | 'quiet' | 'late'; an empty list drops the PDU."""
+    'now' | ('delay', n) | 'quiet' | 'late' | 'race'; an empty list drops the PDU."""
 
     def __init__(self):
         self.applied: list[tuple] = []
@@ -504,7 +504,7 @@ def flip_payload_bit(raw: bytes, d: dict[str, Any], rng: random.Random) -> bytes
 
 
 class EnumPlan(Plan):
-    """faults: {emission index: kind}, kind in drop | dup | delay1 | delay2 | delay4 | quiet | late"""
+    """faults: {emission index: kind}, kind in drop | dup | delay1 | delay2 | delay4 | quiet | late | race"""
 
     def __init__(self, faults: dict[int, str]):
         super().__init__()
@@ -526,6 +526,8 @@ class EnumPlan(Plan):
             return [("quiet", raw)]
         if k == "late":
             return [("late", raw)]
+        if k == "race":
+            return [("race", raw)]
         raise ValueError(k)
 
 
@@ -545,7 +547,7 @@ class RandomPlan(Plan):
             return [("now", raw)]
         r = self.rng.random()
         acc = 0.0
-        for k in ("drop", "dup", "delay", "quiet", "late", "flip"):
+        for k in ("drop", "dup", "delay", "quiet", "late", "race", "flip"):
             acc += self.p.get(k, 0.0)
             if r < acc:
                 break
@@ -801,6 +803,9 @@ class Runner:
                     self.outcome = "stuck"
                     return
                 self.advance_clock()
+                # 'race': the PDU reaches the handler in the very call which detects the timer expiry (PDU and timer are looked at in one
+                # call); 'late': the expiry is serviced by a call of its own first
+                self._release("race")
                 if any(h[0] == "late" for h in self.held):
                     late_pending = True
             yield
